@@ -93,15 +93,18 @@ Plan = List[Tuple[Ratio, Path, Exponent]]
 
 @functools.lru_cache(maxsize=None)
 def _plan_conversion(start: Unit, end: Unit) -> Plan:
+    # dividing out the prefix of the target unit is the last step of every plan: an
+    # offset along the path is expressed in the unprefixed target unit
     unprefixed = end.quantify()
-    plan: RoughPlan = [(1 / unprefixed.magnitude, One, One, 1)]
+    prefix_plan: RoughPlan = [(1 / unprefixed.magnitude, One, One, 1)]
+    plan: RoughPlan = []
 
     start_factors = _splat(start)
     end_factors = _splat(end)
 
     direct_path = _find_path(start, end)
     if direct_path:
-        return _inline_paths(plan) + [(1, direct_path, 1)]
+        return [(1, direct_path, 1)] + _inline_paths(prefix_plan)
 
     plan += [
         (ratio, end, start, exponent)
@@ -124,7 +127,7 @@ def _plan_conversion(start: Unit, end: Unit) -> Plan:
     assert not start_factors
     assert not end_factors
 
-    return _inline_paths(plan)
+    return _inline_paths(plan + prefix_plan)
 
 
 def _inline_paths(plan: List[Tuple[Ratio, Unit, Unit, Exponent]]) -> Plan:
